@@ -28,7 +28,9 @@ CHECKS = {
              'suppressed silently'),
     'C02': dict(
         cat='exploration', ref='5 C02',
-        technique='reference-model monitor: near-exhaustive bound grid per '
+        technique='(a third of the trees stored in MiniDB and swept before '
+                  'queries) '
+                  'reference-model monitor: near-exhaustive bound grid per '
                   'container against list slicing',
         text='For containers reached by insert/delete histories (thinned '
              'trees, single-child roots, one-key leaves) the range methods, '
@@ -39,7 +41,9 @@ CHECKS = {
         note='trusted: vmon/model.py range semantics'),
     'C03': dict(
         cat='exploration', ref='5 C03',
-        technique='structural invariant monitor at quiescent points '
+        technique='(every fourth history stored in MiniDB, committed and '
+                  'swept between calls) '
+                  'structural invariant monitor at quiescent points '
                   '(_check, check(), independent walker after every '
                   'mutating call)',
         text='After every mutating call of generated histories on BTree and '
@@ -115,7 +119,9 @@ CHECKS = {
              'F22, F24, F34'),
     'C09': dict(
         cat='exploration', ref='5 C09',
-        technique='differential monitor: paired execution of C and Python '
+        technique='(every third history with both containers stored and '
+                  'swept) '
+                  'differential monitor: paired execution of C and Python '
                   'classes with hostile arguments, lazy-view walks, '
                   'stale-separator trees; shape and pickle comparison',
         text='The same generated history, with about a quarter of the '
@@ -205,7 +211,8 @@ CHECKS = {
         note='a dead worker counts as a crash of the library'),
     'C16': dict(
         cat='exploration', ref='5 C16, 3.7',
-        technique='reference-count ledger at every quiescent point + '
+        technique='valgrind memcheck slice + garbage-cycle collection + '
+                  'reference-count ledger at every quiescent point + '
                   'ASan/UBSan build with PYTHONMALLOC=malloc',
         text='After every operation of histories on the object-keyed / '
              'object-valued C classes (incl. error paths, failing '
@@ -219,7 +226,9 @@ CHECKS = {
              'uninitialised memory'),
     'C17': dict(
         cat='fault_enumeration', ref='5 C17, 10',
-        technique='fault enumeration with the guarded allocation hook: fail '
+        technique='(also on stored containers whose ghost loads fail, and '
+                  'under valgrind memcheck) '
+                  'fault enumeration with the guarded allocation hook: fail '
                   'the n-th BTree_Malloc/BTree_Realloc of every allocating '
                   'operation; ASan build',
         text='Using the BTREES_VERIF countdown hook every allocation of '
